@@ -471,7 +471,17 @@ func (c *Client) TwoPhaseCommit(ctx context.Context, primary []byte, mutations [
 			return err
 		}
 	}
-	if err := c.commitRegion(ctx, primaryID, collectKeys(primaryMutations), startVersion, commitVersion); err != nil {
+	// The primary key decides the transaction: it must be the first key of its
+	// region's commit batch, because the store applies the keys of a KvCommit in
+	// order and stops at the first refused key.
+	primaryKeys := collectKeys(primaryMutations)
+	for i, key := range primaryKeys {
+		if bytesCompare(key, primary) == 0 {
+			primaryKeys[0], primaryKeys[i] = primaryKeys[i], primaryKeys[0]
+			break
+		}
+	}
+	if err := c.commitRegion(ctx, primaryID, primaryKeys, startVersion, commitVersion); err != nil {
 		return err
 	}
 	for regionID, muts := range grouped {
